@@ -1447,10 +1447,11 @@ def parserFactory(**grammarOptions):
     classAttr = {}
 
     for option in grammarOptions:
-        if grammarOptions[option]:
-            if option not in relaxedGrammar:
-                raise error.PySmiError('Unknown parser relaxation option: %s' % option)
+        # whatever its value
+        if option not in relaxedGrammar:
+            raise error.PySmiError('Unknown parser relaxation option: %s' % option)
 
+        if grammarOptions[option]:
             for func in relaxedGrammar[option]:
                 if sys.version_info[0] > 2:
                     classAttr[func.__name__] = func
